@@ -365,3 +365,167 @@ Proof.
   intros P. destruct (process_ok _ _ _ P) as (_ & NS & ->). rewrite clampv_sum.
   assert (H := neg_sum_nonpos (fst (react_obj o v))). split; lra.
 Qed.
+
+(* ---------- mol basis and wt basis give the same stream ---------- *)
+(* v2 holds the masses of the moles in v1 *)
+Definition scaled (w v1 v2 : vec) : Prop :=
+  length v2 = length v1 /\ forall i, nthq v2 i == nthq w i * nthq v1 i.
+(* r' is r expressed per unit mass: S'_i * MW_r = S_i * MW_i *)
+Definition wt_of (w : vec) (r r' : rxn) : Prop :=
+  ridx r' = ridx r /\ X r' == X r /\ length (st r') = length (st r) /\
+  ~ nthq w (ridx r) == 0 /\
+  forall i, nthq (st r') i * nthq w (ridx r) == nthq (st r) i * nthq w i.
+
+Lemma react_scaled w r r' v1 v2 : scaled w v1 v2 -> wt_of w r r' -> length (st r) = length v1 ->
+  scaled w (react r v1) (react r' v2).
+Proof.
+  intros (L & S) (R & Xe & Ls & NZ & C) W. split.
+  - rewrite !react_length; auto; congruence.
+  - intros i. rewrite !nthq_react by congruence. rewrite R, Xe, !S.
+    assert (E : nthq w (ridx r) * nthq v1 (ridx r) * X r * nthq (st r') i ==
+                nthq v1 (ridx r) * X r * (nthq (st r') i * nthq w (ridx r))) by ring.
+    rewrite E, C. ring.
+Qed.
+
+Lemma parallel_scaled w rs rs' : Forall2 (wt_of w) rs rs' -> forall f1 f2 v1 v2,
+  scaled w f1 f2 -> scaled w v1 v2 -> Forall (wf (length v1)) rs ->
+  scaled w (react_parallel_from f1 rs v1) (react_parallel_from f2 rs' v2).
+Proof.
+  induction 1 as [|r r' rs rs' Hr Hrs IH]; intros f1 f2 v1 v2 Sf Sv W; simpl; auto.
+  inversion W as [|? ? Wr Wrs]; subst.
+  destruct Hr as (R & Xe & Ls & NZ & C). destruct Sv as (L & S). destruct Sf as (Lf & Sf).
+  assert (L1 : length (vadd v1 (vscale (nthq f1 (ridx r) * X r) (st r))) = length v1).
+  { apply vadd_length. rewrite vscale_length. symmetry; exact Wr. }
+  apply IH; [split; auto| |rewrite L1; auto].
+  split.
+  - rewrite L1. rewrite vadd_length; auto. rewrite vscale_length. unfold wf in Wr. congruence.
+  - intros i. rewrite !nthq_vadd, !nthq_vscale; try (rewrite vscale_length; unfold wf in Wr; congruence).
+    rewrite R, Xe, S, Sf.
+    assert (E : nthq w (ridx r) * nthq f1 (ridx r) * X r * nthq (st r') i ==
+                nthq f1 (ridx r) * X r * (nthq (st r') i * nthq w (ridx r))) by ring.
+    rewrite E, C. ring.
+Qed.
+
+Lemma series_scaled w rs rs' : Forall2 (wt_of w) rs rs' -> forall v1 v2,
+  scaled w v1 v2 -> Forall (wf (length v1)) rs ->
+  scaled w (react_series rs v1) (react_series rs' v2).
+Proof.
+  induction 1 as [|r r' rs rs' Hr Hrs IH]; intros v1 v2 Sv W; simpl; auto.
+  inversion W as [|? ? Wr Wrs]; subst. unfold react_series in *. simpl.
+  apply IH.
+  - apply react_scaled; auto.
+  - rewrite react_length; auto.
+Qed.
+
+Inductive rset_wt_of (w : vec) : rset -> rset -> Prop :=
+| WSingle r r' : wt_of w r r' -> rset_wt_of w (Single r) (Single r')
+| WParallel rs rs' : Forall2 (wt_of w) rs rs' -> rset_wt_of w (Parallel rs) (Parallel rs')
+| WSeries rs rs' : Forall2 (wt_of w) rs rs' -> rset_wt_of w (Series rs) (Series rs').
+
+Lemma rset_scaled w s s' v1 v2 : rset_wt_of w s s' -> scaled w v1 v2 ->
+  Forall (wf (length v1)) (rset_members s) ->
+  scaled w (react_rset s v1) (react_rset s' v2).
+Proof.
+  intros H Sv W. destruct H as [r r' H|rs rs' H|rs rs' H]; simpl in *.
+  - inversion W; subst. apply react_scaled; auto.
+  - apply parallel_scaled; auto.
+  - apply series_scaled; auto.
+Qed.
+
+(* o: the object on a molar basis, o': the same object on a weight basis (every member re-based) *)
+Inductive obj_wt_of (w : vec) : robj -> robj -> Prop :=
+| WSimple s s' : rset_wt_of w s s' -> obj_wt_of w (Simple false s) (Simple true s')
+| WSystem ps ps' : Forall2 (fun p p' => fst p = false /\ fst p' = true /\ rset_wt_of w (snd p) (snd p')) ps ps' ->
+    obj_wt_of w (System false ps) (System true ps').
+
+Lemma parts_scaled w ps ps' :
+  Forall2 (fun p p' => fst p = false /\ fst p' = true /\ rset_wt_of w (snd p) (snd p')) ps ps' ->
+  forall v1 v2, scaled w v1 v2 ->
+  Forall (wf (length v1)) (concat (map (fun p => rset_members (snd p)) ps)) ->
+  scaled w (fst (react_parts false ps v1)) (fst (react_parts true ps' v2)).
+Proof.
+  induction 1 as [|[b s] [b' s'] ps ps' (Hb & Hb' & Hs) Hps IH]; intros v1 v2 Sv W; simpl; auto.
+  simpl in Hb, Hb', Hs. subst. simpl. simpl in W. apply Forall_app in W. destruct W as (Ws & Wps).
+  apply IH.
+  - apply rset_scaled; auto.
+  - destruct (rset_spec s v1 Ws) as (L & _). rewrite L. auto.
+Qed.
+
+Lemma obj_scaled w o o' v1 v2 : obj_wt_of w o o' -> scaled w v1 v2 ->
+  Forall (wf (length v1)) (obj_members o) ->
+  scaled w (fst (react_obj o v1)) (fst (react_obj o' v2)).
+Proof.
+  intros H Sv W. destruct H as [s s' H|ps ps' H]; simpl in *.
+  - apply rset_scaled; auto.
+  - apply parts_scaled; auto.
+Qed.
+
+Lemma clampv_scaled w v1 v2 : scaled w v1 v2 -> (forall i, 0 <= nthq w i) ->
+  scaled w (clampv v1) (clampv v2).
+Proof.
+  intros (L & S) Pw. split; [rewrite !clampv_length; auto|].
+  intros i. rewrite !nthq_clampv. specialize (S i). specialize (Pw i).
+  destruct (qltb (nthq v2 i) 0) eqn:E2; destruct (qltb (nthq v1 i) 0) eqn:E1;
+    try apply qltb_true in E1; try apply qltb_true in E2;
+    try apply qltb_false in E1; try apply qltb_false in E2; try lra; try nra.
+Qed.
+
+Lemma to_mass_scaled w mol : length w = length mol -> scaled w mol (to_mass w mol).
+Proof.
+  intros L. split; [apply vmul_length; auto|]. intros i. unfold to_mass. rewrite nthq_vmul by auto. ring.
+Qed.
+
+Lemma basis_equiv_lemma w o o' mol m1 m2 :
+  obj_wt_of w o o' -> length w = length mol -> Forall (fun x => 0 < x) w ->
+  Forall (wf (length mol)) (obj_members o) ->
+  call_stream w o mol = (None, m1) -> call_stream w o' mol = (None, m2) ->
+  length m1 = length m2 /\ forall i, nthq m1 i == nthq m2 i.
+Proof.
+  intros H L Pw W C1 C2.
+  destruct (call_stream_ok _ _ _ _ C1) as (_ & E1). destruct (call_stream_ok _ _ _ _ C2) as (_ & E2).
+  assert (O1 : obasis o = false) by (destruct H; reflexivity).
+  assert (O2 : obasis o' = true) by (destruct H; reflexivity).
+  unfold buffer in *. rewrite O1 in E1. rewrite O2 in E2. subst m1 m2.
+  assert (Sc := obj_scaled w o o' mol (to_mass w mol) H (to_mass_scaled w mol L) W).
+  assert (Pw' := forall_pos_nthq w Pw).
+  destruct (clampv_scaled _ _ _ Sc Pw') as (Lc & Vc).
+  set (c1 := clampv (fst (react_obj o mol))) in *.
+  set (c2 := clampv (fst (react_obj o' (to_mass w mol)))) in *.
+  assert (L2 : length c2 = length w).
+  { rewrite Lc. unfold c1. rewrite clampv_length.
+    destruct (react_obj_conserves o mol [] W) as (Lv & _).
+    { apply Forall_forall. intros r _. unfold balanced. rewrite vdot_nil_l. lra. }
+    lia. }
+  split.
+  - unfold of_mass. rewrite map2_length; auto. 
+  - intros i. unfold of_mass. rewrite nthq_map2_div by auto. rewrite Vc.
+    destruct (Qeq_dec (nthq w i) 0) as [Z|NZ].
+    + (* beyond the end of the vectors: both sides are 0 *)
+      assert (Hi : (length w <= i)%nat).
+      { destruct (Nat.le_gt_cases (length w) i) as [G|G]; auto. exfalso.
+        assert (P : 0 < nthq w i).
+        { clear - Pw G. revert i G. induction Pw as [|x w Hx Hw IH]; intros i G; simpl in G; [lia|].
+          destruct i; unfold nthq in *; simpl; auto. apply IH. lia. }
+        lra. }
+      unfold nthq at 1. rewrite nth_overflow by (unfold c1; rewrite clampv_length;
+        destruct (react_obj_conserves o mol [] W) as (Lv & _);
+        [apply Forall_forall; intros r _; unfold balanced; rewrite vdot_nil_l; lra | lia]).
+      rewrite Z. unfold Qdiv. ring.
+    + field. exact NZ.
+Qed.
+
+(* re-basing a normalised molar reaction (set_reaction_basis) produces its per-mass version *)
+Lemma set_basis_wt_of w r r' : wt r = false -> normalised r -> length (st r) = length w ->
+  ~ nthq w (ridx r) == 0 -> set_basis w r true = Ok r' -> wt_of w r r'.
+Proof.
+  intros Wr Nr L NZ. unfold set_basis. rewrite Wr. simpl.
+  unfold rescale. simpl. unfold normalised in Nr.
+  assert (Sc : - nthq (vmul (st r) w) (ridx r) == nthq w (ridx r)).
+  { rewrite nthq_vmul by auto. rewrite Nr. ring. }
+  destruct (qzerob (- nthq (vmul (st r) w) (ridx r))) eqn:Z.
+  - apply qzerob_true in Z. rewrite Sc in Z. contradiction.
+  - simpl. intros H; inversion H; subst; clear H. unfold wt_of; simpl.
+    repeat split; auto; try lra.
+    + rewrite vdivs_length. apply vmul_length; auto.
+    + intros i. rewrite nthq_vdivs, nthq_vmul by auto. rewrite Sc. field. exact NZ.
+Qed.
